@@ -173,7 +173,8 @@ func c15Confined(v *c15Vec) string {
 	}
 	sp := spell(false, v.Segs)
 	for _, name := range []string{dir + "-private/" + sp, dir + ".bak/" + sp, dir + "x/" + sp, dir + "/../views-private/" + sp,
-		"/../views-private/" + sp, "../views-private/" + sp, sp + "/../../views-private/a", dir + "/../../" + sp} {
+		"/../views-private/" + sp, "../views-private/" + sp,
+		`..\views-private\` + sp, `x\..\..\views-private\` + sp, dir + `\..\views-private\` + sp, `\..\views-private\a`, sp + "/../../views-private/a", dir + "/../../" + sp} {
 		var b strings.Builder
 		func() {
 			defer func() { recover() }()
